@@ -291,4 +291,139 @@ theorem inv_recover (g : GeoBox) (cn : String) (my mx : AxMap) (a : XArr) (hI : 
   | none => by_cases hst : isAffineST g.A = true <;> simp [ccOf, hcrs, caOf, hst, firstSome]
   | some c => simp [ccOf, hcrs]
 
+
+/-! ### helper lemmas for the reprojection output (`assemble`) -/
+
+/-- from the invariant with identity index maps to "recover gives the box back" -/
+theorem recover_of_inv_ident (g : GeoBox) (cn : String) (a : XArr)
+    (hI : Inv g cn (AxMap.ident g.ny) (AxMap.ident g.nx) a) (hny : 1 ≤ g.ny) (hnx : 1 ≤ g.nx)
+    (hfb : HasFallback g (AxMap.ident g.ny) (AxMap.ident g.nx))
+    (halign : isAffineST g.A = true → g.A.b = 0 ∧ g.A.d = 0) :
+    recover a = .ok (.lin g) := by
+  rw [inv_recover g cn _ _ a hI hny hnx hfb]
+  obtain ⟨ny, nx, ⟨a', b, c, d, e, f⟩, crs⟩ := g
+  by_cases hst : isAffineST (⟨a', b, c, d, e, f⟩ : Aff) = true
+  · obtain ⟨hb, hd⟩ := halign hst
+    simp only at hb hd
+    subst hb; subst hd
+    simp only [labelAff, AxMap.ident, baseX, baseY, xfOf, hst, if_true, composeP2W, resOf_same,
+      Int.cast_zero, Int.cast_one, zero_mul, one_mul, add_zero]
+    congr 3
+    simp only [Aff.mul_def, Aff.mul, Aff.translation, Aff.scale]
+    ext <;> simp <;> ring
+  · have hst' : isAffineST (⟨a', b, c, d, e, f⟩ : Aff) = false := by simpa using hst
+    simp only [labelAff, AxMap.ident, baseX, baseY, xfOf, hst', if_false, composeP2W, resOf_same,
+      Int.cast_zero, Int.cast_one, zero_mul, one_mul, add_zero, Bool.false_eq_true]
+    congr 3
+    simp only [Aff.mul_def, Aff.mul, Aff.translation, Aff.scale]
+    ext <;> simp
+
+theorem replaceDims_shape (pre post : List String) (yd xd : String) (dd : String × String)
+    (hpre : yd ∉ pre) :
+    replaceDims (pre ++ [yd, xd] ++ post) (yd, xd) dd = pre ++ [dd.1, dd.2] ++ post := by
+  induction pre with
+  | nil => simp [replaceDims]
+  | cons p ps ih =>
+    have hp : p ≠ yd := fun h => hpre (h ▸ List.mem_cons_self)
+    have hps : yd ∉ ps := fun h => hpre (List.mem_cons_of_mem _ h)
+    have := ih hps
+    simp only [List.cons_append, List.append_assoc] at this ⊢
+    simp only [replaceDims, hp, if_false]
+    rw [this]
+
+/-- dims `(time?) ydim xdim (band?)` are recognised as that pair of spatial dims -/
+theorem guessDims_shape (pre post : List String) (c : Option Crs)
+    (htb : ∀ d ∈ pre ++ post, d = "time" ∨ d = "band") :
+    guessDims (pre ++ [(dimsOf c).1, (dimsOf c).2] ++ post) = some (dimsOf c) := by
+  have hno : ∀ s : String, s ≠ "time" → s ≠ "band" → s ∉ pre ∧ s ∉ post := by
+    intro s h1 h2
+    constructor
+    · intro hm
+      rcases htb s (List.mem_append_left _ hm) with h | h
+      · exact h1 h
+      · exact h2 h
+    · intro hm
+      rcases htb s (List.mem_append_right _ hm) with h | h
+      · exact h1 h
+      · exact h2 h
+  obtain ⟨y1, y2⟩ := hno "y" (by decide) (by decide)
+  obtain ⟨x1, x2⟩ := hno "x" (by decide) (by decide)
+  rcases dimsOf_cases c with h | h <;> rw [h] <;>
+    simp [guessDims, List.contains_append, y1, y2, x1, x2]
+
+theorem lookup_filter_names_none (names : List String) (k : String) (hk : k ∈ names)
+    (l : List (String × Coord)) :
+    (l.filter (fun kc => !names.contains kc.1)).lookup k = none := by
+  induction l with
+  | nil => rfl
+  | cons hd tl ih =>
+    obtain ⟨k', c⟩ := hd
+    simp only [List.filter_cons]
+    split
+    · rename_i hkeep
+      have hne : (k == k') = false := by
+        have : k' ∉ names := by simpa using hkeep
+        have : k ≠ k' := fun h => this (h ▸ hk)
+        simpa using this
+      rw [List.lookup_cons, hne]
+      exact ih
+    · exact ih
+
+theorem crsScan_nil_of_no_crs (l : List (String × Coord)) (h : ∀ k c, (k, Coord.crs c) ∉ l) :
+    crsScan l = [] := by
+  induction l with
+  | nil => rfl
+  | cons hd tl ih =>
+    obtain ⟨k, c⟩ := hd
+    have ih' := ih (fun k' c' hm => h k' c' (List.mem_cons_of_mem _ hm))
+    cases c with
+    | crs cc => exact absurd List.mem_cons_self (h k cc)
+    | _ => simpa [crsScan] using ih'
+
+theorem crsScan_append (l1 l2 : List (String × Coord)) : crsScan (l1 ++ l2) = crsScan l1 ++ crsScan l2 := by
+  simp [crsScan, List.filterMap_append]
+
+theorem no_crs_in_kept (sd : String × String) (names : List String) (l : List (String × Coord)) (k : String)
+    (c : CrsCoord) : (k, Coord.crs c) ∉ (l.filter (shouldKeep sd)).filter (fun kc => !names.contains kc.1) := by
+  intro hm
+  have h1 := (List.mem_filter.mp hm).1
+  have h2 := (List.mem_filter.mp h1).2
+  simp [shouldKeep] at h2
+
+
+/-- coordinates `kept ++ xr_coords(dst)` with nothing in `kept` shadowing or competing with the new ones
+satisfy the invariant for `dst` with identity index maps -/
+theorem inv_assembled (dst : GeoBox) (c : Crs) (hcrs : dst.crs = some c) (dims : List String)
+    (kept cs : List (String × Coord)) (attrs : List String)
+    (hcs : xrCoords (.lin dst) "spatial_ref" = .ok cs)
+    (hsd : guessDims dims = some (dimsOf dst.crs)) (hcn : "spatial_ref" ∉ dims)
+    (hk1 : ∀ k ∈ cs.map (·.1), kept.lookup k = none) (hk2 : ∀ k c', (k, Coord.crs c') ∉ kept) :
+    Inv dst "spatial_ref" (AxMap.ident dst.ny) (AxMap.ident dst.nx)
+      ⟨dims, kept ++ cs, some "spatial_ref", attrs⟩ := by
+  obtain ⟨ny, nx, A, crs⟩ := dst
+  simp only at hcrs
+  subst hcrs
+  have hscan0 : crsScan kept = [] := crsScan_nil_of_no_crs kept hk2
+  obtain ⟨cid, geo⟩ := c
+  cases geo <;> by_cases hst : isAffineST A = true <;>
+  simp only [xrCoords, dimsOf, hst, if_true, if_false, Bool.false_eq_true, Except.ok.injEq] at hcs <;>
+  subst hcs <;>
+  (refine ⟨hsd, hcn, ?_, ?_, ?_, ?_, ?_, Or.inl rfl⟩
+   · simp only [List.lookup_append]
+     rw [hk1 _ (by simp [dimsOf])]
+     simp [dimsOf, baseY, xfOf, caOf, hst, labelsFor_ident, axisLabels_eq_ap, pixelLabels_eq_ap, List.lookup]
+   · simp only [List.lookup_append]
+     rw [hk1 _ (by simp [dimsOf])]
+     simp [dimsOf, baseX, xfOf, caOf, hst, labelsFor_ident, axisLabels_eq_ap, pixelLabels_eq_ap, List.lookup]
+   · simp only [List.lookup_append]
+     rw [hk1 _ (by simp)]
+     simp [ccOf, List.lookup]
+   · simp only [crsScan_append, hscan0]
+     simp [crsScan, ccOf]
+   · intro k c' hm
+     rcases List.mem_append.mp hm with hm | hm
+     · exact absurd hm (hk2 k c')
+     · simp at hm
+       exact hm.1)
+
 end OdcGeo.C09
